@@ -169,10 +169,12 @@ def gen_leaf(rng, depth, plan, regex_ok):
         op = rng.choice(ops_pool)
         kind = "n" if rng.random() < 0.12 else "s"
         v = rng.choice(STRS)
-        if op in (24, 25):
+        if op == 24:
             v = rng.choice(PATTERNS)
-        if op in (26, 27):
+        if op == 26:
             v = rng.choice(PATTERNS_CI)
+        if op in (25, 27):
+            v = rng.choice(REGEXES)
         d = sx(rng.choice(STRS)) if rng.random() < 0.35 else "-"
         nm = pick_name(rng, plan, "s")
         vx = sx(v)
@@ -195,6 +197,8 @@ def gen_leaf(rng, depth, plan, regex_ok):
 
 # simple wildcard / regex patterns inside the subset the C15 model's ERE engine supports
 PATTERNS = ["*", "a*", "*c", "a?c", "gre*", "[a-c]*", "ab", "g*n", "*e*", "?", "??", "a,b", "abc,green", "A*"]
+# raw regular expressions within what property C15's ERE engine model supports (its only quantifier is `*`)
+REGEXES = ["c", "ab", "^a", "c$", "a.c", "a*", "(ab|gr)", "^gr.*n$", "g.*n", "^$", "a|c", ".", "A", "^[a-c]*$", "x*"]
 PATTERNS_CI = [p for p in PATTERNS if "[" not in p]      # MakeRegexCaseInsensitive would rewrite the letters inside a bracket expression
 
 
@@ -466,7 +470,7 @@ def gen_pred(rng, feat, regex_ok):
         pool = list(STROP) + (list(STROP_RX) if regex_ok else [])
         op = rng.choice(pool)
         if op in STROP_RX:
-            ltxt, lhex = '"' + rng.choice(PATTERNS) + '"', None
+            ltxt, lhex = '"' + rng.choice(PATTERNS if op == "matches" else REGEXES) + '"', None
             lhex = sx(ltxt[1:-1])
             cast = ""
         opc = STROP.get(op, STROP_RX.get(op))
